@@ -903,7 +903,8 @@ fn gen_value_doc(rng: &mut Rng) -> (Sexp, Sexp, &'static str) {
         2 => {
             // list levels through the recursive input object, as a literal or through a variable
             let depth = rng.below(11);
-            let v = nested_filter(rng, depth, rng.chance(3, 4));
+            let bad = rng.chance(3, 4);
+            let v = nested_filter(rng, depth, bad);
             let arg = if rng.chance(1, 3) {
                 vars.push(("p".to_string(), jsonify(&v)));
                 vvar("p")
@@ -950,7 +951,8 @@ fn gen_value_doc(rng: &mut Rng) -> (Sexp, Sexp, &'static str) {
                 let ty = *rng.pick(&["query", "query", "query", "mutation", "subscription"]);
                 let odirs = if rng.chance(1, 5) { vec![vdir(rng, &mut vars)] } else { vec![] };
                 let sels = if ty == "query" { value_sels(rng, &mut vars, 0) } else { vec![field(None, "a", vec![("x", num(1))], vec![], vec![])] };
-                ops.push(op(ty, if nops == 1 && rng.chance(1, 2) { None } else { Some(&format!("Op{i}")) }, defs, odirs, sels));
+                let name = if nops == 1 && rng.chance(1, 2) { None } else { Some(format!("Op{i}")) };
+                ops.push(op(ty, name.as_deref(), defs, odirs, sels));
             }
             if nops > 1 && rng.chance(1, 2) {
                 // variables do not apply to the operations that are not selected
@@ -1160,8 +1162,9 @@ fn run(case: &Sexp, dist: &mut Dist) -> Sexp {
         1000..=9999 => "visits_1k_10k",
         _ => "visits_10k_up",
     });
-    if c.len() > 8 {
-        dist.hit(match c[8] {
+    let cs: &[u64] = &c;
+    if let Some(v) = cs.get(8) {
+        dist.hit(match *v {
             0 => "value_checks_0",
             1..=9 => "value_checks_1_9",
             10..=99 => "value_checks_10_99",
